@@ -1111,8 +1111,11 @@ def split_tuple_assigns(func):
                         st.value, ast.Tuple) and len(
                         st.targets[0].elts) == len(st.value.elts) and all(
                         isinstance(t, ast.Name) for t in st.targets[0].elts) \
-                    and not ({t.id for t in st.targets[0].elts}
-                             & names_in(st.value)):
+                    and not any(
+                        st.targets[0].elts[i].id in names_in(
+                            st.value.elts[j])
+                        for i in range(len(st.value.elts))
+                        for j in range(len(st.value.elts)) if j != i):
                 for t, v in zip(st.targets[0].elts, st.value.elts):
                     out.append(ast.copy_location(
                         ast.Assign(targets=[t], value=v), st))
@@ -1198,17 +1201,40 @@ def r165(ctx, repo):
                             "lost")
     c = calls[0]
     st = stmt_of(c)
-    if not (isinstance(st, ast.Assign) and isinstance(
-            st.targets[0], ast.Tuple) and len(st.targets[0].elts) == 3):
+    if isinstance(st, ast.Assign) and isinstance(
+            st.targets[0], ast.Tuple) and len(st.targets[0].elts) == 3 \
+            and st.value is c:
+        idx = txt(st.targets[0].elts[2])
+    elif isinstance(st, ast.Assign) and isinstance(
+            st.targets[0], ast.Name) and isinstance(
+            st.value, ast.Subscript) and st.value.value is c and txt(
+            st.value.slice) in ("2", "-1"):
+        idx = st.targets[0].id          # third result picked by index
+    else:
         raise AnalysisError("get_downsampled_scatter: result unpacking")
-    idx = txt(st.targets[0].elts[2])
-    ri = kwarg(c, "ret_idx", 4)
+    # keyword arguments may come from a `**dict` literal
+    star = {}
+    for kw_ in c.keywords:
+        if kw_.arg is None:
+            d_ = single_def(f, kw_.value.id) if isinstance(
+                kw_.value, ast.Name) else None
+            if d_ is None or not isinstance(d_.value, ast.Dict) or not all(
+                    isinstance(k_, ast.Constant) for k_ in d_.value.keys):
+                raise AnalysisError("get_downsampled_scatter: keyword "
+                                    "arguments of the sampler")
+            star.update({k_.value: v_ for k_, v_ in zip(
+                d_.value.keys, d_.value.values)})
+
+    def ckw(name, pos=None):
+        v_ = kwarg(c, name, pos)
+        return star.get(name) if v_ is None else v_
+    ri = ckw("ret_idx", 4)
     ok = ri is not None and expand(f, ri) == "True"
     ctx.ob("R16.5", ok, "the mask is requested (ret_idx=True) and taken "
            "from the third result" if ok else "ret_idx=True lost: the third "
            "result is not the mask", node=c, label="scatter asks mask")
     # data arguments: scaled versions of x, y selected by self.filter.all
-    a0, a1 = kwarg(c, "a", 0), kwarg(c, "b", 1)
+    a0, a1 = ckw("a", 0), ckw("b", 1)
     if not (isinstance(a0, ast.Name) and isinstance(a1, ast.Name)):
         raise AnalysisError("get_downsampled_scatter: data arguments")
 
@@ -1272,8 +1298,8 @@ def r165(ctx, repo):
     ctx.ob("R16.5", ok, "the selection is the current event filter" if ok
            else f"the selection is `{sel}`, not self.filter.all", node=c,
            label="scatter selection is filter", nontrivial=False)
-    sm = kwarg(c, "samples", 2)
-    rm = kwarg(c, "remove_invalid", 3)
+    sm = ckw("samples", 2)
+    rm = ckw("remove_invalid", 3)
     ok = sm is not None and expand(f, sm) in (
         "downsample", "int(downsample)") and rm is not None \
         and expand(f, rm) == "remove_invalid"
@@ -1401,12 +1427,23 @@ def r165(ctx, repo):
     want_x = expand(f, f"{x[0]}[{idx}]")
     want_y = expand(f, f"{y[0]}[{idx}]")
     n3 = 0
+    outs = []       # (statement, tuple handed out)
     for r in rets:
-        rv = r.value
-        if isinstance(rv, ast.Name):
-            d = single_def(f, rv.id)
-            rv = d.value if d is not None else rv
-        if not (isinstance(rv, ast.Tuple) and len(rv.elts) in (2, 3)):
+        if isinstance(r.value, ast.Tuple):
+            outs.append((r, r.value))
+        elif isinstance(r.value, ast.Name):
+            bs = [b_ for b_ in assigns(f, r.value.id)
+                  if isinstance(b_, ast.Assign) and isinstance(
+                      b_.value, ast.Tuple)]
+            if not bs or len(bs) != len(assigns(f, r.value.id)):
+                raise AnalysisError("get_downsampled_scatter: return value "
+                                    f"`{short(r, 40)}` not understood")
+            outs += [(b_, b_.value) for b_ in bs]
+        else:
+            raise AnalysisError("get_downsampled_scatter: return value "
+                                f"`{short(r, 40)}` not understood")
+    for r, rv in outs:
+        if len(rv.elts) not in (2, 3):
             raise AnalysisError("get_downsampled_scatter: return value "
                                 f"`{short(r, 40)}` not understood")
         el = rv.elts
@@ -1479,7 +1516,7 @@ def r165(ctx, repo):
             ok = False
             if not is_bool:
                 why = "the dataset-level mask is not a boolean array"
-            elif expand(f, wr[0].value) != idx:
+            elif expand(f, wr[0].value) != expand(f, idx):
                 why = (f"`{short(wr[0], 40)}` does not write the "
                        "sampler's mask")
             elif t in (f"np.where({sel})[0]", sel,
@@ -2156,4 +2193,55 @@ TWINS = [
        'xscale,\n'
        '                                    yscale, remove_invalid, '
        'ret_mask)\n')]),
+    ('refactoring 6: sampler keywords from a dict, third result by index, single return', CORE,
+     [('        xax = xax.lower()\n'
+       '        yax = yax.lower()\n'
+       '\n'
+       '        # Get data\n'
+       '        x = self[xax][self.filter.all]\n'
+       '        y = self[yax][self.filter.all]\n'
+       '\n'
+       '        # Apply scale (no change for linear scale)\n'
+       '        xs = RTDCBase._apply_scale(x, xscale, xax)\n'
+       '        ys = RTDCBase._apply_scale(y, yscale, yax)\n'
+       '\n'
+       '        _, _, idx = downsampling.downsample_grid(xs, ys,\n'
+       '                                                 samples=downsample,\n'
+       '                                                 '
+       'remove_invalid=remove_invalid,\n'
+       '                                                 ret_idx=True)\n'
+       '\n'
+       '        if ret_mask:\n'
+       '            # Mask is a boolean array of len(self)\n'
+       '            mask = np.zeros(len(self), dtype=bool)\n'
+       '            mids = np.where(self.filter.all)[0]\n'
+       '            mask[mids] = idx\n'
+       '            return x[idx], y[idx], mask\n'
+       '        else:\n'
+       '            return x[idx], y[idx]\n',
+       '        xax, yax = xax.lower(), yax.lower()\n'
+       '\n'
+       '        # Get data\n'
+       '        x = self[xax][self.filter.all]\n'
+       '        y = self[yax][self.filter.all]\n'
+       '\n'
+       '        # Apply scale (no change for linear scale)\n'
+       '        x_scaled = RTDCBase._apply_scale(x, xscale, xax)\n'
+       '        y_scaled = RTDCBase._apply_scale(y, yscale, yax)\n'
+       '\n'
+       '        # `keep` is a boolean array over the filtered events\n'
+       '        grid_kwargs = {"samples": downsample,\n'
+       '                       "remove_invalid": remove_invalid,\n'
+       '                       "ret_idx": True}\n'
+       '        keep = downsampling.downsample_grid(x_scaled, y_scaled,\n'
+       '                                            **grid_kwargs)[2]\n'
+       '\n'
+       '        if not ret_mask:\n'
+       '            result = (x[keep], y[keep])\n'
+       '        else:\n'
+       '            # Mask is a boolean array of len(self)\n'
+       '            mask = np.zeros(len(self), dtype=bool)\n'
+       '            mask[np.where(self.filter.all)[0]] = keep\n'
+       '            result = (x[keep], y[keep], mask)\n'
+       '        return result\n')]),
 ]
